@@ -259,6 +259,12 @@ pub fn c16_enum_world(corpus: &[Program], pi: usize, kind: &str, idx: usize) -> 
     let f = faults::nth(kind, &p.source, idx);
     let mut w = World::solo("C16", damaged_job(p, &[f]));
     w.note = format!("enumerated single fault: program {} kind {} index {}", pi, kind, idx);
+    if idx % 3 == 2 {
+        // every third fault of a kind meets a rotating option vector instead of the program's own options
+        // (-O0..3 x --insert-code x -W all x --fsigned_char), so that option-only code paths see damaged input too
+        w.jobs[0].args = option_vector((idx / 3 + pi) % OPTION_VECTORS, p);
+        w.note.push_str(" (rotated option vector)");
+    }
     w
 }
 
